@@ -633,6 +633,15 @@ def esc_category(ctx):
                 out.append(ok("block-prefix"))
             else:
                 out.append(bad("block-prefix", "block() must receive the name after the 2-character 'Is' prefix; receives %s" % a[:200], b.loc(bb)))
+        elif any(re.search(r"\]\[0\]='I'$", x) for x in g) and any(re.search(r"\]\[1\]='s'$", x) for x in g):
+            # the same test written as a slice pattern ['I', 's', name @ ..]: the first two characters compared, the
+            # rest (the sub-slice from 2) handed on
+            a = show(se.operand(t["args"][0]))
+            if "'sub_from': 2" in a and "'sub_to': 0" in a:
+                out.append(ok("block-prefix"))
+                out.append(ok("is-prefix-literal"))
+            else:
+                out.append(bad("block-prefix", "block() must receive the name after the 2-character 'Is' prefix; receives %s" % a[-200:], b.loc(bb)))
         else:
             out.append(bad("block-prefix", "block() must be reached only under starts_with(['I','s'])", b.loc(bb)))
     # starts_with argument is ['I','s']
